@@ -176,8 +176,9 @@ def run_group(item):
     # Position within Prefix and Size (C14), same parameters, one job
     if meas in ('JACCARD', 'COSINE', 'DICE', 'OVERLAP', 'EDIT_DISTANCE'):
         frows = {}
+        kjobs = [1, 1, 2, 3][gid % 4]          # the same number of jobs for the three filters
         for f in ('POSITION', 'PREFIX', 'SIZE'):
-            cf = dict(base, kind='ftab', api=f + '.filter_tables', filt=f, op='<=' if ed else '>=', sc=0, n_jobs=1,
+            cf = dict(base, kind='ftab', api=f + '.filter_tables', filt=f, op='<=' if ed else '>=', sc=0, n_jobs=kjobs,
                       tok=dict(base['tok'], rs=0 if ed else 1))
             _, _, _, frows[f] = rows_of(cf, km)
         if all(v is not None for v in frows.values()):
@@ -201,7 +202,7 @@ def make_groups(tier, seed):
     for gi in range(n_rand):
         ed = gi % 6 == 5
         if ed:
-            nl, nr = rng.randint(0, 10), rng.randint(0, 10)
+            nl, nr = rng.randint(0, 16), rng.randint(0, 16)
             tok = {'kind': 'qg', 'q': rng.choice([2, 2, 3, 1]), 'pad': rng.choice([1, 1, 0]), 'rs': rng.choice([0, 1])}
             case = {'kind': 'join', 'api': 'edit_distance_join', 'meas': 'EDIT_DISTANCE', 'filt': 'NONE',
                     'tok': tok, 't': [rng.choice([1, 2, 3]), 1], 'L': ed_table(rng, 'L', nl), 'R': ed_table(rng, 'R', nr)}
@@ -271,6 +272,53 @@ def make_groups(tier, seed):
                 groups.append({'case': case, 't2': t2, 'first_stage': ['SIZE', 'PREFIX', 'OVERLAP', 'POSITION'][gi % 4],
                                'validate': True, 'src': 'tie:%s:%d/100:n=%d' % (meas, p, n)})
                 gi += 1
+    # score ties: pairs whose similarity o/u is a dyadic rational with a 5 in the fifth decimal (u = 32, 64): the double
+    # is exact and round(., 4) must give the even neighbour (0.28125 -> 0.2812); needs token sets of 17-48 tokens
+    def tie_tables(specs):
+        lrows, rrows = [], []
+        for j, (o, a, b) in enumerate(specs):
+            shared = ['s%d_%d' % (j, i) for i in range(o)]
+            lrows.append([j + 1, ' '.join(shared + ['a%d_%d' % (j, i) for i in range(a)])])
+            rrows.append([101 + j, ' '.join(['b%d_%d' % (j, i) for i in range(b)] + shared)])
+        return ({'cols': ['id', 's'], 'rows': lrows, 'index': None, 'strcols': ['s']},
+                {'cols': ['id', 's'], 'rows': rrows, 'index': None, 'strcols': ['s']})
+    tie_sets = [('JACCARD', 'jaccard_join', [(o, (32 - o) // 2, 32 - o - (32 - o) // 2) for o in range(1, 32, 2)]),
+                ('JACCARD', 'jaccard_join', [(o, (64 - o) // 2, 64 - o - (64 - o) // 2) for o in range(2, 63, 4)]),
+                ('DICE', 'dice_join', [(o, 32 - o, 32 - o) for o in range(1, 32, 2)]),
+                ('DICE', 'dice_join', [(o, 20 - o, 44 - o) for o in range(1, 20, 2)])]
+    for ti, (meas, api, specs) in enumerate(tie_sets):
+        L, R = tie_tables(specs)
+        case = {'kind': 'join', 'api': api, 'meas': meas, 'filt': 'NONE', 'tok': {'kind': 'ws', 'rs': 1},
+                't': [3, 100], 'op': '>=', 'ae': 1, 'am': 0, 'sc': 1, 'lout': None, 'rout': None, 'n_jobs': 1 + ti % 2,
+                'L': L, 'R': R}
+        groups.append({'case': case, 't2': [1, 2], 'first_stage': ['SIZE', 'PREFIX', 'POSITION', 'OVERLAP'][ti],
+                       'validate': True, 'src': 'scoretie:%s#%d' % (meas, ti)})
+    # dense result: more than 10 000 output pairs from one worker (buffered output)
+    def dense_table(base, n, side):
+        return {'cols': ['id', 's'], 'rows': [[base + j, 'al be ga' + (' x%d' % (j % 3) if side == 'L' else ' x%d' % (j % 2))]
+                                                for j in range(n)], 'index': None, 'strcols': ['s']}
+    for di, (api, nj) in enumerate((('jaccard_join', 1), ('overlap_join', 2)) if tier == 'quick' else
+                                   (('jaccard_join', 1), ('overlap_join', 2), ('dice_join', 1), ('cosine_join', 3),
+                                    ('overlap_coefficient_join', 1))):
+        n = 110 if nj == 1 else 150
+        case = {'kind': 'join', 'api': api, 'meas': record.JOINS[api], 'filt': 'NONE', 'tok': {'kind': 'ws', 'rs': 1},
+                't': [3, 1] if api == 'overlap_join' else [1, 2], 'op': '>=', 'ae': 1, 'am': 0, 'sc': 1, 'lout': None,
+                'rout': None, 'n_jobs': nj, 'L': dense_table(1, n, 'L'), 'R': dense_table(5001, n, 'R')}
+        groups.append({'case': case, 't2': [4, 1] if api == 'overlap_join' else [9, 10],
+                       'first_stage': 'OVERLAP' if api == 'overlap_coefficient_join' else 'SIZE',
+                       'validate': False, 'n_jobs_m': 1 + di % 2, 'src': 'dense:%s' % api})
+    # long right table: more than 1 000 rows in one worker, every row with a token that occurs nowhere else, and
+    # token-less rows on the left
+    for li, (api, nrows, nj) in enumerate((('jaccard_join', 1500, 1),) if tier == 'quick' else
+                                          (('jaccard_join', 1500, 1), ('cosine_join', 2600, 2), ('dice_join', 1200, 1))):
+        lrows = [[1, ''], [2, 'part common'], [3, ' '], [4, 'p0007 common'], [5, None]]
+        rrows = [[1001 + j, 'p%04d%s' % (j, ' common' if j % 50 == 0 else '')] for j in range(nrows)]
+        case = {'kind': 'join', 'api': api, 'meas': record.JOINS[api], 'filt': 'NONE', 'tok': {'kind': 'ws', 'rs': 1},
+                't': [1, 2], 'op': '>=', 'ae': 1, 'am': 0, 'sc': 1, 'lout': None, 'rout': None, 'n_jobs': nj,
+                'L': {'cols': ['id', 's'], 'rows': lrows, 'index': None, 'strcols': ['s']},
+                'R': {'cols': ['id', 's'], 'rows': rrows, 'index': None, 'strcols': ['s']}}
+        groups.append({'case': case, 't2': [7, 10], 'first_stage': 'SIZE', 'validate': False,
+                       'src': 'longright:%s:%d' % (api, nrows)})
     # bundled data
     ssj = lib.load()
     A, B = ssj.load_person_dataset()
@@ -351,7 +399,7 @@ def run(tier, seed):
             c = copy.deepcopy(g['case'])
             c['_law'] = {'law': l['law'], 't2': g['t2'], 'first_stage': g['first_stage'], 'first': l.get('first'),
                          'note': l.get('note'), 'src': g['src']}
-            if len(c['L']['rows']) > 400:
+            if len(c['L']['rows']) > 400 and g['src'].startswith(('person', 'books')):
                 c['L'], c['R'] = {'dataset': g['src']}, {'dataset': g['src']}
             fails.append({'prop': f[0], 'clause': f[1], 'detail': f[2:] + [l['law'], l.get('first')], 'case': c,
                           'engine': 'E9'})
